@@ -203,6 +203,24 @@ def run_case(case):
                     bad(method, "scalar_given_vector_x", "scalar_vecx", {"got": got, "expected": e1, "given": gs[i]})
             except Exception as e:
                 bad(method, "exception", "scalar_vecx", {"type": type(e).__name__, "msg": str(e)[:200]})
+    # a caller's buffer reused for the next block of conditioning values (same object, new contents)
+    for method in ("pdf", "cdf", "icdf"):
+        arg = ps if method == "icdf" else xs
+        f = getattr(cond, method)
+        e_rev = np.array([float(getattr(r, method)(a)) for r, a in zip(refs[::-1], arg)])
+        for kind, buf in (("reused_array", gs.copy()),):   # (lists are passed through to the user's function, which need not accept them)
+            try:
+                count["calls"] += 2
+                f(arg, buf)
+                if isinstance(buf, list):
+                    buf.reverse()
+                else:
+                    buf[:] = buf[::-1].copy()
+                got = f(arg, buf)
+                if not close(got, e_rev):
+                    bad(method, "stale_after_buffer_reuse", kind, {"got": got, "expected": e_rev, "given_now": list(map(float, buf))})
+            except Exception as e:
+                bad(method, "exception", kind, {"type": type(e).__name__, "msg": str(e)[:200]})
     # integer-valued conditioning values (int arrays / python ints) are values like any other
     gi = np.array([0, 1, 2, 3, 6])
     refs_i = [zoo.make(fam, theta(float(g))) for g in gi]
